@@ -204,10 +204,41 @@ def run(ctx):
             for ref, word in (("$a", "x"), ("$f", "half")):
                 if ref in re.split(r"\s*,\s*", simple.group(2)) and word not in sp_i["v"]:
                     oracle_fail.append({"why": f"well-formed intent: referenced argument {ref} is not spoken", "intent": s, "speech": sp_i["v"], "lines": pre_ign + lines})
+    # ---- argument scope: a reference is looked up among the descendants, but not inside a child that carries an intent of its own or
+    # another arg; a reference that can only be found there is an error (ignored or reported as configured)
+    inner = "<mi arg='x'>x</mi><mo>+</mo><mi arg='y'>y</mi>"
+    SCOPE = [("direct children", inner, True), ("inside a plain mrow", f"<mrow>{inner}</mrow>", True), ("inside a child with its own intent", f"<mrow intent='g($y)'>{inner}</mrow>", False),
+             ("inside a child with another arg", "<msup arg='z'><mi arg='x'>x</mi><mn>2</mn></msup><mo>+</mo><mi arg='y'>y</mi>", False),
+             ("inside a child with its own intent, two levels down", f"<mrow intent='g($y)'><mrow>{inner}</mrow></mrow>", False),
+             ("inside msqrt with its own intent", "<msqrt intent='h($y)'><mi arg='x'>x</mi><mi arg='y'>y</mi></msqrt>", False),
+             ("the child itself carries the arg and an intent", "<mrow arg='x' intent='g($y)'><mi>x</mi><mo>+</mo><mi arg='y'>y</mi></mrow>", True)]
+    n_scope = 0
+    for what, body_, visible in SCOPE:
+        for outer in ("f($x)", "f($x,$x)", "$x", "f(g($x))"):
+            w = f"<math><mrow intent='{outer}'>{body_}<mo>=</mo><mn>1</mn></mrow></math>"
+            wo = f"<math><mrow>{body_}<mo>=</mo><mn>1</mn></mrow></math>"
+            re_ = im.run([{"op": "session"}] + pre_err + [{"op": "set_mathml", "xml": w}, {"op": "intent_tree"}, {"op": "speech"}])[1 + len(pre_err):]
+            ri_ = im.run([{"op": "session"}] + pre_ign + [{"op": "set_mathml", "xml": w}, {"op": "speech"}, {"op": "set_mathml", "xml": wo}, {"op": "speech"}])[1 + len(pre_ign):]
+            n_scope += 1
+            lines = pre_err + [{"op": "set_mathml", "xml": w}, {"op": "intent_tree"}, {"op": "speech"}]
+            if any(r_.get("r") in ("panic", "abort", "timeout") for r_ in re_ + ri_):
+                panics.append({"intent": outer, "reply": next(r_ for r_ in re_ + ri_ if r_.get("r") in ("panic", "abort", "timeout")), "lines": lines})
+                continue
+            if visible:
+                if re_[1].get("r") != "ok":
+                    oracle_fail.append({"why": "argument scope: a reference to an argument that is in scope is rejected", "intent": outer, "where": what, "reply": (re_[1].get("msg") or "")[-200:], "lines": lines})
+            else:
+                if re_[1].get("r") == "ok" or re_[2].get("r") == "ok":
+                    oracle_fail.append({"why": "argument scope: IntentErrorRecovery=Error, but a reference that is only found inside a child with its own intent/arg is accepted", "intent": outer, "where": what,
+                                        "speech": re_[2].get("v"), "lines": lines})
+                if ri_[1].get("r") != "ok" or ri_[1].get("v") != ri_[3].get("v"):
+                    oracle_fail.append({"why": "argument scope: IgnoreIntent, but the speech is not the speech without the attribute", "intent": outer, "where": what, "got": str(ri_[1].get("v", ri_[1].get("msg", "")))[:200],
+                                        "expected": ri_[3].get("v"), "lines": pre_ign + [{"op": "set_mathml", "xml": w}, {"op": "speech"}]})
     im.close()
     mo.close()
     ctx.coverage.update({
-        "evaluations": len(cases), "distinct_nontrivial": len(productions),
+        "argument_scope_cases": n_scope,
+        "evaluations": len(cases) + n_scope, "distinct_nontrivial": len(productions),
         "rule": "grammar-generated, mutated, property-only and arbitrary-Unicode intent strings on an mrow with three arg children (two leaves, one fraction), both recovery settings; "
                 "accept/reject and intent-tree shape compared with the model; distinct = distinct accepted parse trees (model)",
         "kinds": kinds, "accepted": n_accept, "model_vs_impl_disagreements": disagreements[:8], "n_disagreements": len(disagreements),
